@@ -79,6 +79,12 @@ def handle1 (op : String) (a : Json) : Except String Json := do
     match ← fldOptRat a "tol" with
     | some tol => return valJ (boolJ (insideTol tol b p))
     | none => return valJ (boolJ (inside b p))
+  | "holds_anchor" =>
+    -- wave 5: the anchor-point clause on the observed point, judged on the values (bounds from the coordinates)
+    let b ← geomBounds (← getGeom (← fld a "g"))
+    let p ← getPair (← fld a "p")
+    let tol ← getRat (← fld a "tol")
+    return valJ (boolJ (holdsAnchor tol b (← fldStr a "pos") p))
   | "holds_bounds" =>
     -- executable statement of the bounds clause on the implementation's observed output
     let g ← getGeom (← fld a "g")
